@@ -12,10 +12,11 @@ import Imeta.Driver.Jpeg
 import Imeta.Driver.Exif
 import Imeta.Driver.Png
 import Imeta.Driver.Bufio
+import Imeta.Driver.Bmff
 open Imeta
 
 def handlers : List (List String → Option String) :=
-  [Tiff.handle, ImageType.handle, EnumsDrv.handle, CodecDrv.handle, HashDrv.handle, JpegDrv.handle, ExifDrv.handle, PngDrv.handle, BufioDrv.handle]
+  [Tiff.handle, ImageType.handle, EnumsDrv.handle, CodecDrv.handle, HashDrv.handle, JpegDrv.handle, ExifDrv.handle, PngDrv.handle, BufioDrv.handle, BmffDrv.handle]
 
 def dispatch (line : String) : String :=
   let toks := (line.trimAscii.toString.splitOn " ").filter (· ≠ "")
